@@ -43,6 +43,10 @@ type scenario struct {
 	// Junk: an undecodable datagram and an empty one reach the client right after its first transmission (whatever it logs
 	// about them, the response that follows is read whole)
 	Junk bool `json:"junk,omitempty"`
+	// Raw (nclient4, silence scenarios): the client runs over the library's own raw broadcast connection
+	// (nclient4.NewBroadcastUDPConn) on top of the scripted connection, so what is recorded are IPv4/UDP frames: the
+	// destination and the bytes are read back from the frames
+	Raw bool `json:"raw,omitempty"`
 }
 
 func writeErrOf(k int) error {
@@ -117,7 +121,11 @@ func run(t *testing.T, sc scenario, want []byte, xid uint32) (res result) {
 	f := fam(sc.Fam)
 	synctest.Test(t, func(t *testing.T) {
 		conn := sconn.New(0)
-		c, err := f.NewCfg(conn, sc.T, sc.N, sc.Cfg)
+		var pc net.PacketConn = conn
+		if sc.Raw {
+			pc = nclient4.NewBroadcastUDPConn(conn, &net.UDPAddr{Port: 68})
+		}
+		c, err := f.NewCfg(pc, sc.T, sc.N, sc.Cfg)
 		if err != nil {
 			t.Fatal(err)
 		}
@@ -294,11 +302,20 @@ func judge(r *mon.Rec, t *testing.T, sc scenario) {
 			bad("schedule", "transmission #%d at %v, want %v", k, w.T, at)
 			return
 		}
+		if sc.Raw { // the frame the raw connection wrote: its payload and where it is addressed to
+			fr := w.B
+			if len(fr) < 28 || fr[0] != 0x45 || fr[9] != 17 {
+				bad("raw-frame", "transmission #%d over the raw connection is not an IPv4/UDP frame with a 20-octet header", k)
+				return
+			}
+			w.B = fr[28:]
+			w.Dest = &net.UDPAddr{IP: net.IP(append([]byte{}, fr[16:20]...)), Port: int(fr[22])<<8 | int(fr[23])}
+		}
 		if !bytes.Equal(w.B, want) {
 			bad("bytes-differ", "transmission #%d is not the request's encoding", k)
 			return
 		}
-		if ua, ok := w.Dest.(*net.UDPAddr); !ok || !ua.IP.Equal(dests[sc.Dest].IP) || ua.Port != dests[sc.Dest].Port || ua.Zone != dests[sc.Dest].Zone {
+		if ua, ok := w.Dest.(*net.UDPAddr); !ok || !ua.IP.Equal(dests[sc.Dest].IP) || ua.Port != dests[sc.Dest].Port || (!sc.Raw && ua.Zone != dests[sc.Dest].Zone) {
 			bad("destination", "transmission #%d went to %v, want %v", k, w.Dest, dests[sc.Dest])
 			return
 		}
@@ -360,6 +377,9 @@ func judge(r *mon.Rec, t *testing.T, sc scenario) {
 	if sc.Second {
 		r.Count("scenarios_with_a_matcher_with_memory", 1)
 	}
+	if sc.Raw {
+		r.Count("scenarios_over_the_raw_connection", 1)
+	}
 	if r.NSamples() < 6 && sc.N >= 2 && sc.N <= 3 {
 		r.Sample(map[string]any{"scenario": sc, "transmissions_at": times(res.writes), "returned_at": res.retAt.String(), "err": fmt.Sprint(res.err)})
 	}
@@ -390,6 +410,9 @@ func grid(quick bool) []scenario {
 					for d := 0; d < len(dests); d++ {
 						for _, dl := range []bool{false, true} {
 							out = append(out, scenario{Fam: fm, T: T, N: n, Accept: -1, Extra: ex, Dest: d, CtxDL: dl, Cfg: len(out) % cli.NCfg})
+							if fm == "nclient4" && !dl && (d == 0 || d == 1 || d == 5) && n >= 1 && n <= 3 { // over the library's raw connection
+								out = append(out, scenario{Fam: fm, T: T, N: n, Accept: -1, Extra: ex, Dest: d, Cfg: len(out) % cli.NCfg, Raw: true})
+							}
 							if n != 0 && !dl && d%2 == 0 { // the same with a transmission that fails
 								wf := 1 + len(out)%3
 								if n > 0 && wf > n {
